@@ -188,6 +188,9 @@ class Prov:
                     and len(value.args[0].elt.elts) == arity:
                 # min / max / any selector over a stream of tuples: slot-wise
                 return self.expr(value.args[0].elt.elts[i], f, depth + 1)
+            # min / max / next / choice over the items of a dict keyed by domain values: (DOM, x)
+            if call_name(value) in ("min", "max", "next", "choice") and value.args and arity == 2 and self.expr(value.args[0], f, depth + 1) == DOMITEMS:
+                return DOM if i == 0 else TOP
             fn = norm(value.func)
             if fn in ("random.choice", "choice") and value.args:
                 # choice over a list of tuples: slot provenance of the tuples
